@@ -24,7 +24,8 @@ META = {
             "and Study handles (some holding an older per-thread snapshot of the study) call fail_stale_trials / ask / "
             "optimize(n_trials=1). Drivers: sequential sweeps incl. retry chains killed again up to max_retry+2 hops; for two "
             "concurrent sweeps ALL single-preemption schedules at every line the first sweep executes in _heartbeat.py, _callbacks.py "
-            "and the storage layer; thread soaks; half of the shards run under TZ=America/New_York. Oracle per dead trial: state FAIL, "
+            "and the storage layer; thread soaks; a sweeper PROCESS killed before every SQL statement/commit of its sweep, followed by "
+            "sweeps of the survivors; half of the shards run under TZ=America/New_York. Oracle per dead trial: state FAIL, "
             "failure callback <=1 (exactly 1 when a sweep completed), <=1 retry enqueued, chain length <= max_retry, the retry carries "
             "the original params/distributions/user_attrs, failed_trial = the chain's first number, retry_history = the chain in "
             "order, intermediate values inherited iff asked; alive / never-beaten / finished trials are bit-identical before and "
@@ -36,7 +37,8 @@ META = {
     "design_ref": "DESIGN.md §3 C19",
     "engines": ["sched"],
 }
-REQUIRED = ("dead_trials", "sweeps", "callbacks_observed", "retries_observed", "chains_at_max_retry", "protected_trials_checked", "schedules", "schedules_b_inside_window")
+REQUIRED = ("dead_trials", "sweeps", "callbacks_observed", "retries_observed", "chains_at_max_retry", "protected_trials_checked", "schedules", "schedules_b_inside_window",
+            "sweeper_crash_points")
 SHARDS = {"quick": 12, "thorough": 16}
 WATCHDOG_S = {"quick": 1200, "thorough": 4 * 3600}
 BUDGET_S = {"quick": 70, "thorough": 2400}
@@ -340,6 +342,127 @@ def soak_round(ctx: Ctx, s: sched.Sched, rng, idx: int) -> None:
         w.close()
 
 
+# ---------------------------------------------------------------------------------------- sweeper crash
+def child_main(spec_path: str) -> None:
+    """python -m vf.checks.c19 <spec.json>: a sweeper PROCESS that dies at SQL statement/commit boundary k."""
+    import json
+    import sys
+    import warnings
+
+    warnings.simplefilter("ignore")
+    spec = json.load(open(spec_path))
+    if os.environ.get("VERIF_REPO"):
+        sys.path.insert(0, os.environ["VERIF_REPO"])
+    import optuna
+    from optuna.storages import RDBStorage, RetryFailedTrialCallback, _CachedStorage
+
+    from vf import crash
+
+    optuna.logging.set_verbosity(50)
+
+    class FileCounting(RetryFailedTrialCallback):
+        def __call__(self, study, trial):
+            with open(spec["calls"], "a") as f:
+                f.write(f"{trial.number}\n")
+            super().__call__(study, trial)
+
+    raw = RDBStorage(spec["url"], heartbeat_interval=1, grace_period=600, failed_trial_callback=FileCounting(max_retry=spec["max_retry"], inherit_intermediate_values=True),
+                     engine_kwargs={"connect_args": {"timeout": 30}})
+    st = _CachedStorage(raw) if spec["cached"] else raw
+    study = optuna.load_study(storage=st, study_name=spec["name"])
+    cr = crash.Crasher(spec["at"], "before", None, spec["trace"])
+    crash.install_sqlite(cr, st)
+    cr.trace.write(json.dumps(["start"]) + "\n")
+    optuna.storages.fail_stale_trials(study)
+    cr.trace.write(json.dumps(["done", cr.n]) + "\n")
+    os._exit(0)
+
+
+def crash_sweep_round(ctx: Ctx, rng, idx: int) -> None:
+    import json
+    import subprocess
+    import sys
+
+    from vf.common import ROOT
+
+    cached, max_retry = rng.random() < 0.5, rng.choice([None, 1])
+    k = 0
+    total = None
+    while True:
+        if ctx.out_of_time() and k > 0:
+            ctx.count("budget_cut")
+            break
+        w = World(cached, max_retry, True, 2, f"{ctx.shard[0]}-c{idx}-{k}")
+        try:
+            r2 = ctx.rng("crash-scene", idx)
+            d1, _ = w.make_trial(r2, "dead", owner=0)
+            d2, _ = w.make_trial(r2, "dead", owner=1)
+            a, _ = w.make_trial(r2, "alive", owner=0)
+            nb, _ = w.make_trial(r2, "nobeat", owner=1)
+            snap = snapshot_protected(w, {a: "alive", nb: "nobeat"})
+            spec = {"url": w.url, "cached": cached, "max_retry": max_retry, "name": w.studies[0].study_name, "at": k, "trace": f"{w.dir}/trace.jsonl", "calls": f"{w.dir}/calls.txt"}
+            sp = f"{w.dir}/spec.json"
+            json.dump(spec, open(sp, "w"))
+            p = subprocess.run([sys.executable, "-W", "ignore", "-m", "vf.checks.c19", sp], cwd=ROOT, env=dict(os.environ, PYTHONHASHSEED="0"), capture_output=True, text=True, timeout=300)
+            ctx.count("sweeper_crash_points")
+            if p.returncode == 0:
+                total = k
+            elif p.returncode != 137:
+                ctx.inconclusive_because(f"C19 crashing sweeper failed rc={p.returncode}: {p.stderr[-300:]}")
+                return
+            if os.path.exists(spec["calls"]):
+                for line in open(spec["calls"]):
+                    w.calls.append((int(line), "dead_sweeper"))
+            # the surviving workers sweep afterwards
+            w.sweep(0)
+            w.sweep(1)
+            ctx.count("sweeps", 3)
+            case = {"driver": "sweeper_crash", "cached": cached, "max_retry": max_retry, "round": idx, "crash_before_sql_step": k, "seed": ctx.seed}
+            ctx.case(case, p.returncode == 137)
+            judge_after_crash(ctx, w, [d1, d2], snap, case)
+        finally:
+            w.close()
+        if total is not None:
+            break
+        k += 1
+
+
+def judge_after_crash(ctx: Ctx, w: World, dead: list, protected: dict, case: dict) -> None:
+    """After a sweeper died mid-sweep and the survivors swept again: each dead trial is FAIL, its callback ran at most once
+    (it may have been lost with the dead sweeper), at most one retry, and the retry (if any) is well formed."""
+    from optuna.trial import TrialState
+
+    fresh = __import__("optuna").load_study(storage=w.raws[0], study_name=w.studies[0].study_name)
+    trials = fresh.get_trials(deepcopy=True)
+    by_num = {t.number: t for t in trials}
+    base = {"cached": w.cached, "backend_family": "sqlite", "driver": "sweeper_crash", "storage_calls_overlapped": False}
+    for num, snap in protected.items():
+        ctx.count("protected_trials_checked")
+        t = by_num[num]
+        if pickle.dumps((t.state, t.values, t.params, t.user_attrs, t.system_attrs, t.intermediate_values, t.datetime_complete)) != snap[1]:
+            ctx.violation({**base, "kind": "protected_trial_touched", "protected_kind": snap[0]}, f"trial {num} ({snap[0]}) changed", case)
+            return
+    for num in dead:
+        ctx.count("dead_trials")
+        t = by_num[num]
+        ncb = sum(1 for n, _ in w.calls if n == num)
+        retries = [r for r in trials if r.system_attrs.get("retry_history", [None])[-1:] == [num] and r.number != num]
+        if t.state != TrialState.FAIL:
+            ctx.violation({**base, "kind": "dead_trial_not_failed"}, f"dead trial {num} is {t.state.name} after the survivors swept", case)
+            return
+        if ncb > 1 or len(retries) > 1:
+            ctx.violation({**base, "kind": "double_fail", "callbacks": ncb, "retries": len(retries), "linearizable_if_sqlite_state_check_reads_stale": False},
+                          f"dead trial {num}: callback ran {ncb} times, {len(retries)} retries after a sweeper crash", case)
+            return
+        for r in retries:
+            if r.params != t.params or r.user_attrs != t.user_attrs or r.system_attrs.get("failed_trial") != num or r.system_attrs.get("retry_history") != [num]:
+                ctx.violation({**base, "kind": "retry_does_not_carry_original"}, f"retry {r.number} of {num} is malformed: {r.params} {r.system_attrs}", case)
+                return
+            if r.state == TrialState.RUNNING and not r.params:
+                ctx.violation({**base, "kind": "half_created_retry"}, f"retry {r.number} is a zombie", case)
+                return
+
+
 def run(ctx: Ctx) -> None:
     ctx.rule = ("(a) sequential rounds = generated trial pattern x workers x sweep kinds x retry chains; (b) one schedule per (cached?, max_retry, second call, "
                 "paused line of the first sweep); (c) thread soaks; non-trivial = >=2 dead trials / the second sweep completed inside the paused window")
@@ -364,6 +487,8 @@ def run(ctx: Ctx) -> None:
             soak_round(ctx, s, ctx.rng("soak", ctx.shard[0], i), i)
     finally:
         s.close()
+    if ctx.shard[0] % 3 == 0 or ctx.shard[1] == 1:
+        crash_sweep_round(ctx, ctx.rng("crash", ctx.shard[0]), ctx.shard[0])
 
 
 def replay(ctx: Ctx, w: dict) -> None:
@@ -387,3 +512,9 @@ def replay(ctx: Ctx, w: dict) -> None:
             enumerate_sweeps(ctx, s, bool(c["cached"]), c["max_retry"], c["B"])
     finally:
         s.close()
+
+
+if __name__ == "__main__":
+    import sys as _sys
+
+    child_main(_sys.argv[1])
